@@ -29,9 +29,9 @@ PROPS["C14"] = dict(
 
 PROPS["C20"] = dict(
     level="proof",
-    technique="model generated from source by the translator (tag tables of network.rs / address.rs); Lean `decide +kernel` over the whole finite domain (3x3 pairs, all 256 bytes) lifted to arbitrary blobs; exhaustive differential check",
-    level_text="The model IS the tables regenerated from src/network.rs and src/util/address.rs on every run; C20_table/_injective/_network_inverse/_reject_others/_type_lookup/_cross_network are proved against Monero's literal table (Spec.tag) by kernel evaluation over every (network, type) pair and every byte value and lifted to blobs of any length. A one-sided or two-sided edit of any table entry changes Gen and makes `decide` fail. C20_type_total: the type lookup equals ONE by-the-book function (Spec.addrType) on every blob; C20_decode_encode / C20_encode_decode / C20_tables_agree tie the three generated tables to each other; C20_rows_wf: the payment-id slice of every row is in range. In addition the real functions are compared with model and spec on the complete domain (61 708 cases) plus ~3 900 payload-variation / payment-id / interleaved cases, and checked in Rust against the book's literal table on every (network, first byte) with zero / all-equal / random payloads (~20 000 direct checks). Session 4: C20_type_total (model = by-the-book Spec.addrType on every blob), C20_decode_encode, C20_encode_decode, C20_tables_agree; ~20 000 direct checks against Monero's literal table in the harness itself, call sequences from_u8 -> from_slice.",
-    level_note="Trusted: Lean kernel; the translator's reading of the match arms (cross-checked by the exhaustive differential run); Spec.tag is my transcription of cryptonote_config.h.",
+    technique="model = tag tables OBSERVED by the translator by exhaustive evaluation of the compiled functions of network.rs / address.rs (9 pairs + 6 payment ids, all 256 bytes, from_slice on first byte x length <= 160 x 5 contents, the empty blob; the syn reading of the match arms is only compared); Lean `decide +kernel` over the whole finite domain (3x3 pairs, all 256 bytes) lifted to arbitrary blobs; exhaustive differential check",
+    level_text="The model IS the tables observed on every run by exhaustive evaluation of the compiled Network::as_u8 / from_u8 / AddressType::from_slice (first byte x length <= 160 x 5 contents); C20_table/_injective/_network_inverse/_reject_others/_type_lookup/_cross_network are proved against Monero's literal table (Spec.tag) by kernel evaluation over every (network, type) pair and every byte value and lifted to blobs of any length. A one-sided or two-sided edit of any table entry changes Gen and makes `decide` fail. The statements about blobs of any length and content are statements about the MODEL, whose shape (row chosen by byte 0, one length threshold, one contiguous payment-id range) is the one observe.rs imposes; for the Rust code, independence of content and of lengths beyond 160 is covered differentially (lengths up to 1000), not proved. C20_type_total: the model of the type lookup equals ONE by-the-book function (Spec.addrType) on every blob; C20_decode_encode / C20_encode_decode (payment id included) / C20_tables_agree tie the three generated tables to each other; C20_rows_wf + C20_slice_exact: for any row the lookup hits the payment-id slice has exactly hi-lo bytes; C20_type_lookup_empty_guarded: the model consults the observed flag (from_slice(&[]) is Err under every network, no panic); C20_reject_high_bit (first byte >= 128, e.g. 0x80|tag, rejected whatever follows), C20_nonintegrated_any_length, C20_network_edges. In addition the real functions are compared with model and spec on the complete domain (61 708 cases) plus ~3 900 payload-variation / payment-id / interleaved cases, and checked in Rust against the book's literal table on every (network, first byte, length 1..=80) with zero / all-equal / random payloads (~190 000 direct checks; for the addrtype operation the Lean spec column coincides with the model column by C20_type_total, so this is the Lean-independent oracle), plus varint-style first bytes (0x80|tag then 00), long blobs behind non-integrated tags and the table edges of from_u8. Session 4: C20_type_total (model = by-the-book Spec.addrType on every blob), C20_decode_encode, C20_encode_decode, C20_tables_agree; ~20 000 direct checks against Monero's literal table in the harness itself, call sequences from_u8 -> from_slice.",
+    level_note="Trusted: Lean kernel; the table shape of observe.rs:address_tables (byte 0 selects the row, one minimum length, one contiguous payment-id range; anything else is an EXTRACT-FAIL) and its sampling of lengths <= 160 / 5 contents (cross-checked by the exhaustive differential run); Spec.tag is my transcription of cryptonote_config.h.",
     design_ref="DESIGN.md §6 C20",
     rule="exhaustive enumeration of the finite domain.",
     assumptions=["Spec.tag (18/19/42, 53/54/63, 24/25/36) is Monero's table"],
@@ -113,10 +113,10 @@ PROPS["C05"] = dict(
 PROPS["C12"] = dict(
     level="proof",
     technique="Lean 4 theorems about a model of Address::{from_bytes, as_bytes, Display, FromStr, hex, consensus} over generated tag tables, for every checksum function H and key-validity predicate; full proof that Monero base58 (model of the crate's control flow = reference) is a bijection between byte strings and accepted texts; differential check incl. every single-field corruption",
-    level_text="C12_bytes_iff: from_bytes b = some a <-> WF a and as_bytes a = b (canonical blob, exact lengths 69/77); C12_b58_dec_enc / C12_b58_enc_dec: base58 decode/encode are mutually inverse and only canonical text is accepted; C12_str_roundtrip / C12_str_canonical, consensus and hex forms, and each rejection class (unknown tag, checksum, invalid key, short, trailing) as corollaries; C12_parse_is_monero: the model parser equals the hand-written spec parser on every input. C12_hex_is_spec / C12_consensus_is_spec / C12_parse_hex_is_monero / C12_parse_consensus_is_monero: the hex and consensus forms equal the by-the-book forms on every input; C12_*_ed25519: the same statements instantiated with H = Keccak-256 and the model of PublicKey::from_slice (non-canonical / undecodable / negative-zero keys rejected); C12_text_length (95/106); C12_known_answer_*: two address strings from outside the project reproduced in the kernel. Real code vs model (key test = model of from_slice) vs spec (key test = RFC 8032 decoder) on ~15k (quick) cases incl. all 256 tag values, corrupted keys/checksums, truncations, extensions, alphabet/non-alphabet strings, overflowing blocks. Session 4: C12_hex_is_spec, C12_consensus_is_spec, C12_parse_hex_is_monero, C12_parse_consensus_is_monero, nine *_ed25519 instantiations with Keccak and the model of PublicKey::from_slice, two published addresses as kernel-evaluated known answers.",
+    level_text="C12_bytes_iff: from_bytes b = some a <-> WF a and as_bytes a = b (canonical blob, exact lengths 69/77); C12_b58_dec_enc / C12_b58_enc_dec: base58 decode/encode are mutually inverse and only canonical text is accepted; C12_str_roundtrip / C12_str_canonical, consensus and hex forms, and each rejection class (unknown tag, checksum, invalid key, short, trailing) as corollaries; C12_parse_is_monero: the model parser equals the hand-written spec parser on every input. C12_hex_is_spec (with the lengths 138/154) / C12_consensus_is_spec / C12_parse_hex_is_monero / C12_parse_consensus_is_monero: the hex and consensus functions of the model equal, on every input, an independent restatement (written in this project) of the library's documented forms - optional 0x, either case / one length byte < 128 then the blob; Monero itself has no hex or consensus form of an address, only the blob parser underneath follows cryptonote_basic_impl.cpp; C12_b58_block / C12_b58_block_refused (crate model of decode_block: accepted iff legal length, alphabet, value < 256^k), C12_b58_bad_block / C12_b58_overflow / C12_b58_overflow_tail (a refused or overflowing block at any block position, the 7-character tail included, refuses the text), C12_b58_decode_injective; C12_rejects_checksum (lengths 69/77), C12_rejects_foreign_char, C12_rejects_non_ascii (text with a byte >= 0x80 is rejected in base58 and hex form - what the executor assumes for non-UTF-8 input); C12_*_ed25519: the same statements instantiated with H = Keccak-256 and the model of PublicKey::from_slice (non-canonical / undecodable / negative-zero keys rejected); C12_text_length (95/106); C12_known_answer_*: three address strings from outside the project (integrated, sub-address, standard) reproduced in the kernel. Real code vs model (key test = model of from_slice) vs spec (key test = RFC 8032 decoder) on ~15k (quick) cases incl. all 256 tag values, corrupted keys/checksums, truncations, extensions, alphabet/non-alphabet strings, overflowing blocks, every block of a valid text respelled (value + m*2^(8*bytes), all z, foreign character; tail block included), checksum changes that cancel under xor, small-order keys formatted and parsed back in every form. Session 4: C12_hex_is_spec, C12_consensus_is_spec, C12_parse_hex_is_monero, C12_parse_consensus_is_monero, nine *_ed25519 instantiations with Keccak and the model of PublicKey::from_slice, two published addresses as kernel-evaluated known answers.",
     level_note="Trusted: Lean kernel; model of base58-monero 2.1.0 and hex 0.4.3 control flow tied to the crates differentially; H = Keccak (C17) and key validity (C13) are parameters of the general theorems (instantiated in the *_ed25519 theorems) and reference implementations in the driver. The pinned tree accepted trailing bytes: repaired by the fix commit recorded in known_findings.json.",
     design_ref="DESIGN.md §6 C12",
-    rule="3 networks x 3 types x random valid keys / payment ids both directions; every single-field corruption of ~50 addresses; random and adversarial base58 / hex strings.",
+    rule="3 networks x 3 types x random valid keys / payment ids both directions; every single-field corruption of ~50 addresses; random and adversarial base58 / hex strings; non-canonical block spellings of every block; small-order keys in every form.",
     assumptions=["checksum hash returns at least 4 bytes (true for Keccak-256)"],
     gen_items=["network.", "address.from_slice", "CAP"],
 )
